@@ -41,7 +41,8 @@ Qed.
 
 (* the strings a value refers to by offset are present in the sections the DWARFInfo holds *)
 Definition refs_ok (secs : msections) (v : fval) : Prop :=
-  refs_present (sec_line_str secs) (sec_str secs) v.
+  refs_present (sec_line_str secs) (sec_str secs)
+               (match sec_sup_str secs with Some sup => sup | None => None end) v.
 
 (* ---------------------------------------------------------------- partially resolved entries *)
 (* the entry after the first n fields of the format have been visited by resolve_strings *)
@@ -175,6 +176,34 @@ Section Resolve.
                 = map (mixed (S (length done)) (map fst (done ++ (ct, lf) :: todo))) entries).
       { intros Hsame. apply map_ext_in. intros e He. rewrite Forall_forall in Hall.
         apply (mixed_same done (ct, lf) todo e); [apply (Hall e He)|exact Hsame]. }
+      assert (sup_column : forall lf', lf = lf' ->
+                name_in (spec_form_name lf') ["DW_FORM_strp_sup"; "DW_FORM_GNU_strp_alt"]%string = true ->
+                (forall v, form_of v = lf' -> exists off str, v = FV_strp_sup off str \/ v = FV_GNU_strp_alt off str) ->
+                (do data' <- match sec_sup_str secs with
+                             | Some sup => replace_value (map (mixed (length done) (map fst (done ++ (ct, lf) :: todo))) entries) ct (get_string sup)
+                             | None => replace_value (map (mixed (length done) (map fst (done ++ (ct, lf) :: todo))) entries) ct str_of_offset
+                             end;
+                 resolve_fields secs (format_view todo) data')
+                = Ok (map (mixed (length (done ++ (ct, lf) :: todo)) (map fst (done ++ (ct, lf) :: todo))) entries)).
+      { intros lf' -> _ Hshape.
+        destruct entries as [|e0 er] eqn:Eent.
+        - destruct (sec_sup_str secs); cbn [map replace_value bind]; apply Hnext; reflexivity.
+        - rewrite <- Eent in *.
+          destruct (sec_sup_str secs) as [sup|] eqn:Esup.
+          + pose proof (replace_value_column done (ct, lf') todo (get_string sup) entries Hnd) as HR.
+            cbn [fst] in HR. rewrite HR; [cbn [bind]; apply Hnext; reflexivity|].
+            eapply Forall_impl; [|exact Hall]. intros e [Hm Hr]. split; [exact Hm|].
+            eapply Forall_impl; [|exact Hr]. intros v Hv Hf. cbn [snd] in Hf.
+            destruct (Hshape v Hf) as (off & str & [-> | ->]); unfold refs_ok in Hv; rewrite Esup in Hv;
+              cbn [refs_present] in Hv; destruct Hv as (sec & -> & Hat & Hsz);
+              cbn [raw_meaning meaning]; apply get_string_valid; assumption.
+          + (* no supplementary file: no value of this form satisfies refs_ok *)
+            exfalso. rewrite Eent in Hall. inversion Hall as [|? ? [Hm Hr] _]; subst.
+            destruct (forms_match_split done (ct, lf') todo e0 Hm) as (ed & v & et & -> & Hl & Hf).
+            cbn [snd] in Hf. rewrite Forall_forall in Hr.
+            specialize (Hr v ltac:(apply in_or_app; right; left; reflexivity)).
+            destruct (Hshape v (eq_sym Hf)) as (off & str & [-> | ->]); unfold refs_ok in Hr; rewrite Esup in Hr;
+              cbn [refs_present] in Hr; destruct Hr as (sec & Hsec & _); discriminate. }
       destruct lf; cbn [spec_form_name String.eqb Ascii.eqb Bool.eqb name_in existsb orb].
       + apply Hnext, Hkeep. intros [] Hv; try discriminate; reflexivity.
       + (* line_strp *)
@@ -200,6 +229,10 @@ Section Resolve.
       + apply Hnext, Hkeep. intros [] Hv; try discriminate; reflexivity.
       + apply Hnext, Hkeep. intros [] Hv; try discriminate; reflexivity.
       + apply Hnext, Hkeep. intros [] Hv; try discriminate; reflexivity.
+      + (* LF_strp_sup: the supplementary file's .debug_str *)
+        apply (sup_column LF_strp_sup); [reflexivity|reflexivity|intros v Hf; destruct v; try discriminate; do 2 eexists; ((left; reflexivity) || (right; reflexivity))].
+      + (* LF_GNU_strp_alt: the supplementary file's .debug_str *)
+        apply (sup_column LF_GNU_strp_alt); [reflexivity|reflexivity|intros v Hf; destruct v; try discriminate; do 2 eexists; ((left; reflexivity) || (right; reflexivity))].
   Qed.
 
   (* resolve_strings(lineprog_header, format_field, data_field) *)
